@@ -187,7 +187,7 @@ Fixpoint raw_parens_balanced (s : bytes) (st : list lpos) (depth : nat) : bool :
   match s with
   | [] => Nat.eqb depth 0
   | b :: s' =>
-    let '(c, st') := match st with [] => (LOct 3, []) | p :: t => (l_ch p, t) end in
+    let '(c, st') := match st with [] => (LRaw, []) | p :: t => (l_ch p, t) end in   (* as w_lit_body: a byte without a style is raw *)
     match c with
     | LRaw =>
       if byte_eqb b x28 then raw_parens_balanced s' st' (S depth)
